@@ -486,7 +486,9 @@ impl RCmd {
                     cx.eff(&mut a, Kind::Once, 0);
                     t.kind = RK::Burst { m, a };
                 }
-                P::SelfWake(m, _) => {
+                P::SelfWake(m, _) | P::AbortSpawned(_, m) => {
+                    // (AbortSpawned: the child is aborted before its first poll, never runs, and its
+                    // join handle releases the waiter in the same settle)
                     cx.mark(m, 0);
                     return Run::Finished;
                 }
